@@ -179,6 +179,16 @@ def check_via_netlist(case, res, fam, lst):
         return
     m = n.get_module('M')
     _judge_module(case, res, fam, lst, m, ex, vecs, 'netlist')
+    if len(ex) <= 2:
+        # the same rectangles as the shape of a terminal (a pad drawn with rectangles) and of a fixed module: recognition
+        # does not depend on the kind of the module
+        for kind, node in (('terminal', {'terminal': True, 'rectangles': vecs}), ('fixed', {'fixed': True, 'rectangles': vecs})):
+            reset_frame_state()
+            try:
+                nk = Netlist({'Modules': {'M': node}})
+            except Exception:  # noqa  (e.g. overlapping rectangles of a hard module are rejected: not a recognition matter)
+                continue
+            _judge_module(case, res, fam, lst, nk.get_module('M'), ex, vecs, 'netlist-' + kind)
     if len(ex) >= 2:
         # two-step history: load the module without its last rectangle (recognition runs on load), add the
         # rectangle, ask for recognition again -- the verdict must be the one for the full list
